@@ -126,7 +126,7 @@ func (a *atomSet) addV(k string) {
 func autoName(f *model.File, c *model.Cmd) string {
 	av := f.AutoVars[c.Name]
 	if av.ArgPos >= 0 && av.ArgPos < len(c.Args) {
-		return ref.PlainArg(&c.Args[av.ArgPos])
+		return f.Sub(ref.PlainArg(&c.Args[av.ArgPos]))
 	}
 	return av.VarName
 }
@@ -137,16 +137,16 @@ func (a *atomSet) expr(f *model.File, e *model.Expr) int {
 		l := e.Leaf
 		switch l.Kind {
 		case model.LFlag:
-			a.addB("flag:" + l.Name)
+			a.addB("flag:" + env.Canon(f.Sub(l.Name)))
 		case model.LDefeated:
-			a.addB("trainer:" + l.Name)
+			a.addB("trainer:" + env.Canon(f.Sub(l.Name)))
 		case model.LVar:
-			a.addV(l.Name)
+			a.addV(f.Sub(l.Name))
 		case model.LAuto:
 			a.addV(autoName(f, l.Auto))
 		}
-		if l.Form == model.FOp && !l.Strict && env.IsVarRef(env.Canon(l.Val)) {
-			a.addV(l.Val)
+		if l.Form == model.FOp && !l.Strict && env.IsVarRef(env.Canon(f.Sub(l.Val))) {
+			a.addV(f.Sub(l.Val))
 		}
 		return 1
 	case model.ONot:
@@ -178,7 +178,7 @@ func (a *atomSet) block(f *model.File, b []*model.Stmt) {
 				a.block(f, c.Body)
 			}
 		case model.KSwitch:
-			name := s.Sw.Var
+			name := f.Sub(s.Sw.Var)
 			if s.Sw.Auto != nil {
 				name = autoName(f, s.Sw.Auto)
 			}
